@@ -45,6 +45,14 @@ public:
 
     auto score(const wlearner_criterion criterion) const
     {
+        // NB: the normal equations are singular for (numerically) constant feature values => skip the feature
+        //     (otherwise the rounding noise of the determinant decides the coefficients)!
+        const auto det = x2(bin_affine) * x0(bin_affine) - x1(bin_affine) * x1(bin_affine);
+        if (!(det > 8.0 * std::numeric_limits<scalar_t>::epsilon() * x0(bin_affine) * x2(bin_affine) * x0(bin_affine)))
+        {
+            return std::numeric_limits<scalar_t>::quiet_NaN();
+        }
+
         const auto rss = rss_affine() + rss_zero(bin_missed);
         const auto k   = 2 * ::nano::size(tdims());
         const auto n   = static_cast<tensor_size_t>(x0(bin_affine) + x0(bin_missed));
